@@ -12,17 +12,17 @@ import (
 // _varint (stream.readVarint), _frames (readFrameHeader / ReadByte / Read / discardFrame / endFrame accounting),
 // _body (bodyReader.Read against a reference frame splitter), _settings (readSettings), _framedata
 // (readFrameData), _request (known finding C35-overread-nil-stream).
-// _lenDiscard / _lenControl / _lenBody / _lenSettings: the same consumers behind a frame header whose length field
-// uses any of the four varint encodings and any declared value up to 2^62-1 (the peer chooses it; nothing has to
-// arrive): discardUnknownFrame, the real client/server control-stream loops, bodyReader.Read and readSettings
-// must neither panic nor size anything by the declared length, and report the truncated frame as H3_FRAME_ERROR.
+// _length: the same consumers behind a frame header whose length field uses any of the four varint encodings and
+// any declared value up to 2^62-1 (the peer chooses it; nothing has to arrive): discardUnknownFrame, the real
+// client/server control-stream loops, bodyReader.Read and readSettings must neither panic nor size anything by
+// the declared length, and report the truncated frame as H3_FRAME_ERROR.
 //
 // Sensitivity (sh mut.sh, all caught):
 //   body.go Read `p = p[:r.st.lim]` dropped                      : VerifC35_body "terminal error class" / "complete DATA frames delivered..."
 //   stream.go endFrame `st.lim != 0` -> `st.lim > 0`             : VerifC35_frames "endFrame outside a frame refused"
 //   stream.go recordBytesRead `st.lim < 0` -> `st.lim < -64`     : VerifC35_frames "ReadByte past the frame: connection error H3_FRAME_ERROR"
-//   stream.go discardFrame loop -> `st.readFrameData()` (seed C35-D): VerifC35_lenDiscard / _lenControl / _lenBody panic "makeslice: len out of range"
-//   stream.go discardFrame `for range st.lim` -> `for range int32(st.lim)` : VerifC35_lenDiscard "truncated unknown frame: H3_FRAME_ERROR"
+//   stream.go discardFrame loop -> `st.readFrameData()` (seed C35-D): VerifC35_length panic "makeslice: len out of range" (consumers discard, control, body)
+//   stream.go discardFrame `for range st.lim` -> `for range int32(st.lim)` : VerifC35_length "truncated unknown frame: H3_FRAME_ERROR"
 
 func init() {
 	vfRegister("VerifC35_varint", VerifC35_varint)
@@ -31,10 +31,7 @@ func init() {
 	vfRegister("VerifC35_settings", VerifC35_settings)
 	vfRegister("VerifC35_framedata", VerifC35_framedata)
 	vfRegister("VerifC35_request", VerifC35_request)
-	vfRegister("VerifC35_lenDiscard", VerifC35_lenDiscard)
-	vfRegister("VerifC35_lenControl", VerifC35_lenControl)
-	vfRegister("VerifC35_lenBody", VerifC35_lenBody)
-	vfRegister("VerifC35_lenSettings", VerifC35_lenSettings)
+	vfRegister("VerifC35_length", VerifC35_length)
 }
 
 func c35stream(data []byte) *stream {
@@ -625,21 +622,32 @@ func VerifC35_request() {
 // H3_FRAME_ERROR-class failure. The harnesses below put one such header (1-byte symbolic type, symbolic length
 // in a chosen encoding) in front of 0..3 symbolic bytes + FIN and run the consumers of the harnesses above.
 
-// c35length returns a symbolic frame length and its encoding in a chosen varint size (1, 2, 4 or 8 bytes).
-// Values: below 64 (thorough: below 2^14) or from 2^48 up to 2^62-1. The gap is left out for the sake of defective
-// trees only: there a declared length that reaches make() is reported by the engine as an input-sized allocation
-// for 2^26..2^47 (a native replay would really ask the runtime for that much), and is forked over value by value
-// below that; from 2^48 on the Go runtime refuses the allocation outright (a panic that replays natively).
-func c35length() (uint64, []byte) {
-	e := vfChoice("lenenc", 4)
+// c35length returns a frame length and its encoding in a chosen varint size (1, 2, 4 or 8 bytes, non-minimal
+// encodings included). Values: below small (thorough: below smallThorough) or from 2^48 up to 2^62-1, symbolic;
+// with concreteSmall the small values are chosen concretely (one path each) and only the large ones are symbolic.
+// The gap is left out for the sake of defective trees only: there a declared length that reaches make() is
+// reported by the engine as an input-sized allocation for 2^26..2^47 (a native replay would really ask the
+// runtime for that much), and is forked over value by value below that (which is also why the harnesses with many
+// paths take their small lengths concretely); from 2^48 on the Go runtime refuses the allocation outright (a
+// panic that replays natively).
+func c35length(small, smallThorough uint64, concreteSmall bool) (uint64, []byte) {
+	e := 3 - vfChoice("lenenc", 4) // 8-byte encoding first
 	size := 1 << e
-	v := vfU64("len")
-	vfAssume(v < uint64(1)<<(8*size-2))
-	small := uint64(64)
 	if vfTier() > 0 {
-		small = 1 << 14
+		small = smallThorough
 	}
-	vfAssume(vfOr(v < small, v >= 1<<48))
+	var v uint64
+	if concreteSmall && (e < 3 || vfChoice("lenregion", 2) == 1) {
+		v = uint64(vfLen("smalllen", 0, int(small)-1))
+	} else {
+		v = vfU64("len")
+		vfAssume(v < uint64(1)<<(8*size-2))
+		if concreteSmall {
+			vfAssume(v >= 1<<48)
+		} else {
+			vfAssume(vfOr(v < small, v >= 1<<48))
+		}
+	}
 	enc := make([]byte, size)
 	for i := range enc {
 		enc[i] = byte(v >> (8 * (size - 1 - i)))
@@ -649,10 +657,13 @@ func c35length() (uint64, []byte) {
 }
 
 // c35frameInput: 1-byte symbolic frame type (< 64), symbolic length (c35length), 0..3 symbolic bytes.
-func c35frameInput() (ftype byte, flen uint64, n int, data []byte) {
+// (With at most 3 bytes behind the header every length above 3 is a truncated frame: the consumers that parse the
+// bytes behind the frame take small lengths 0..4 concretely, thorough 0..7; the plain skip takes them symbolically
+// below 64, thorough 2^14.)
+func c35frameInput(small, smallThorough uint64, concreteSmall bool) (ftype byte, flen uint64, n int, data []byte) {
 	ftype = vfU8("type")
 	vfAssume(ftype < 64)
-	flen, lf := c35length()
+	flen, lf := c35length(small, smallThorough, concreteSmall)
 	n = vfLen("payload", 0, 3)
 	data = append([]byte{ftype}, lf...)
 	data = append(data, vfBytes("p", n)...)
@@ -667,11 +678,27 @@ func c35known(t frameType) bool {
 	return false
 }
 
+// One entry point for the four consumers (one exploration budget; the cheapest consumer and, in c35length, the
+// largest lengths are explored first: the explorer is depth-first and takes choice 0 first).
+func VerifC35_length() {
+	switch vfChoice("consumer", 4) {
+	case 0:
+		c35lenDiscard()
+	case 1:
+		c35lenControl()
+	case 2:
+		c35lenBody()
+	case 3:
+		c35lenSettings()
+	}
+	vfReach("end")
+}
+
 // readFrameHeader + discardUnknownFrame: the header is decoded exactly in every encoding; a known type is
 // H3_FRAME_UNEXPECTED with nothing consumed; an unknown frame is skipped exactly when its payload is there, and is
 // an H3_FRAME_ERROR stream error when FIN comes first, however large the declared length.
-func VerifC35_lenDiscard() {
-	ftype, flen, n, data := c35frameInput()
+func c35lenDiscard() {
+	ftype, flen, n, data := c35frameInput(64, 1<<14, false)
 	st := c35stream(data)
 	got, err := st.readFrameHeader()
 	vfAssert(err == nil && got == frameType(ftype) && st.lim == int64(flen), "frame header in any length encoding")
@@ -694,7 +721,6 @@ func VerifC35_lenDiscard() {
 		vfAssert(c35unread(st) == int64(n)-int64(flen), "skipped exactly the frame")
 		vfReach("skipped")
 	}
-	vfReach("end")
 }
 
 // c35controlRef: how a control-stream loop must end on b + FIN (behind the SETTINGS frame): unknown frames are
@@ -734,8 +760,8 @@ func c35controlRef(b []byte) (final int, skipped int) {
 // The real control-stream loops of the server and the client ((*serverConn).handleControlStream,
 // (*clientConn).handleControlStream; neither touches its receiver) over an empty SETTINGS frame, one frame header
 // as above, 0..3 symbolic bytes and FIN.
-func VerifC35_lenControl() {
-	_, flen, _, data := c35frameInput()
+func c35lenControl() {
+	_, flen, _, data := c35frameInput(5, 8, true)
 	st := c35stream(append([]byte{byte(frameTypeSettings), 0}, data...))
 	var err error
 	if vfChoice("side", 2) == 0 {
@@ -761,30 +787,27 @@ func VerifC35_lenControl() {
 	if skipped > 1 {
 		vfReach("two frames skipped")
 	}
-	vfReach("end")
 }
 
 // bodyReader.Read (as VerifC35_body) over one frame header as above + 0..3 symbolic bytes + FIN: a DATA frame that
 // declares up to 2^62-1 bytes delivers what is there and then fails with H3_FRAME_ERROR (or H3_MESSAGE_ERROR
 // against a Content-Length); an unknown frame of that size is H3_FRAME_ERROR; a HEADERS frame of that size is a
 // trailer decoding error.
-func VerifC35_lenBody() {
-	_, flen, _, data := c35frameInput()
+func c35lenBody() {
+	_, flen, _, data := c35frameInput(5, 8, true)
 	remain := int64(vfLen("contentlength", 0, 3)) - 1
 	bufsz := []int{1, 8}[vfChoice("buf", 2)]
 	c35bodyCheck(data, remain, bufsz)
 	if flen >= 1<<48 {
 		vfReach("huge declared length")
 	}
-	vfReach("end")
 }
 
 // readSettings (as VerifC35_settings) over one frame header as above + 0..3 symbolic bytes + FIN.
-func VerifC35_lenSettings() {
-	_, flen, _, data := c35frameInput()
+func c35lenSettings() {
+	_, flen, _, data := c35frameInput(5, 8, true)
 	c35settingsCheck(data)
 	if flen >= 1<<48 {
 		vfReach("huge declared length")
 	}
-	vfReach("end")
 }
